@@ -219,6 +219,7 @@ pub fn def() -> PropertyDef {
         subs: vec![
             Box::new(PSub { name: "resolve", quick: 30000, thorough: 1000000, strat, eval }),
             Box::new(ESub { name: "long_and_large", run: run_big, replay: replay_big }),
+            Box::new(LSub { name: "long_recordings", cases: long_cases_all, eval: eval, note: LONG_NOTE }),
         ],
     }
 }
